@@ -275,7 +275,95 @@ inline void covDump() { __gcov_dump(); }
 inline void covDump() {}
 #endif
 
+// Pristine fork server.  A worker that has executed thousands of plans is not the process a replay
+// file will meet: code under test may keep state in statics between calls (that is exactly what C11's
+// "whatever was processed earlier in the same process" is about).  So confirmation, shrinking and the
+// final execution of a violation run in children of a template process that was forked right after
+// workerInit() and has executed nothing: the state a fresh `--replay` process is in.
+// A plan may carry a prelude: indexes of plans of the same batch that are executed first (their
+// outcomes are ignored), so that state the code under test keeps between calls is part of the
+// replayable history ("whatever was processed earlier in the same process").
+inline Outcome executeWithPrelude(Harness &h, const Json &plan, bool keepLog = false) {
+  if (const Json *pi = plan.find("prelude_indexes")) {
+    uint64_t batchSeed = plan.getU64("batch_seed");
+    uint64_t salt = hashStr(std::string(h.name()) + ":" + h.property);
+    for (auto &ix : pi->a) {
+      uint64_t idx = (uint64_t)ix.i;
+      Json pp = h.generate(mix64(batchSeed, salt, idx), idx);
+      g_log.reset(false);
+      h.execute(pp);
+    }
+  }
+  g_log.reset(keepLog);
+  return h.execute(plan);
+}
+
+struct PristineServer { pid_t pid = -1; int req = -1, rsp = -1; };
+inline PristineServer g_pristine;
+inline bool ioAll(int fd, void *buf, size_t n, bool wr) {
+  char *b = (char *)buf; size_t off = 0;
+  while (off < n) { ssize_t k = wr ? ::write(fd, b + off, n - off) : ::read(fd, b + off, n - off); if (k <= 0) { if (k < 0 && errno == EINTR) continue; return false; } off += (size_t)k; }
+  return true;
+}
+inline std::string runPlanInChild(Harness &h, const std::string &planJson) {
+  int p[2];
+  if (pipe(p) != 0) _exit(2);
+  pid_t c = fork();
+  if (c < 0) _exit(2);
+  if (c == 0) {
+    close(p[0]);
+    std::string out;
+    try { Json plan = Json::parse(planJson); Outcome o = executeWithPrelude(h, plan); out = outcomeToJson(o).dump(); } catch (...) {}
+    ioAll(p[1], &out[0], out.size(), true);
+    covDump();
+    _exit(0);
+  }
+  close(p[1]);
+  std::string js; char buf[4096]; ssize_t n;
+  while ((n = ::read(p[0], buf, sizeof buf)) > 0) js.append(buf, (size_t)n);
+  close(p[0]);
+  int status = 0;
+  waitpid(c, &status, 0);
+  if (js.empty()) {
+    Outcome o;
+    std::string why = WIFSIGNALED(status) ? "signal " + std::to_string(WTERMSIG(status)) : "exit " + std::to_string(WEXITSTATUS(status));
+    o.violate("crashed", "the process died (" + why + ") while executing the plan", "crashed:hard");
+    o.hash = "died:" + why;
+    js = outcomeToJson(o).dump();
+  }
+  return js;
+}
+inline void startPristineServer(Harness &h) {
+  int rq[2], rs[2];
+  if (pipe(rq) != 0 || pipe(rs) != 0) return;
+  pid_t pid = fork();
+  if (pid < 0) return;
+  if (pid == 0) {
+    close(rq[1]); close(rs[0]);
+    for (;;) {
+      uint32_t n = 0;
+      if (!ioAll(rq[0], &n, 4, false)) _exit(0);
+      std::string js(n, '\0');
+      if (n && !ioAll(rq[0], &js[0], n, false)) _exit(0);
+      std::string out = runPlanInChild(h, js);
+      uint32_t m = (uint32_t)out.size();
+      if (!ioAll(rs[1], &m, 4, true) || !ioAll(rs[1], &out[0], m, true)) _exit(0);
+    }
+  }
+  close(rq[0]); close(rs[1]);
+  g_pristine.pid = pid; g_pristine.req = rq[1]; g_pristine.rsp = rs[0];
+}
+
 inline Outcome executeIsolated(Harness &h, const Json &plan) {
+  if (g_pristine.pid > 0) {
+    std::string js = plan.dump();
+    uint32_t n = (uint32_t)js.size(), m = 0;
+    if (ioAll(g_pristine.req, &n, 4, true) && ioAll(g_pristine.req, &js[0], n, true) && ioAll(g_pristine.rsp, &m, 4, false)) {
+      std::string out(m, '\0');
+      if (!m || ioAll(g_pristine.rsp, &out[0], m, false)) { try { return outcomeFromJson(Json::parse(out)); } catch (...) {} }
+    }
+    g_pristine.pid = -1;      // the server is gone: fall back to a plain fork below
+  }
   int p[2];
   if (pipe(p) != 0) { perror("pipe"); _exit(2); }
   std::fflush(stdout);
@@ -317,8 +405,8 @@ inline int replayFile(Harness &h, const DriverArgs &a) {
   plan["config"] = rf.at("config");
   plan["ops"] = rf.at("ops");
   plan["seed"] = rf.has("seed") ? rf.at("seed") : Json(0);
-  g_log.reset(true);
-  Outcome o = h.execute(plan);
+  if (rf.has("prelude_indexes")) { plan["prelude_indexes"] = rf.at("prelude_indexes"); plan["batch_seed"] = rf.at("batch_seed"); }
+  Outcome o = executeWithPrelude(h, plan, true);
   Json res = outcomeToJson(o);
   std::string wantClass = rf.has("violation") ? rf.at("violation").getStr("class") : "";
   std::string wantHash = rf.getStr("event_log_hash");
@@ -356,9 +444,11 @@ inline void workerLoop(Harness &h, const DriverArgs &a, int w, int W, uint64_t s
     setrlimit(RLIMIT_AS, &rl);
   }
   h.workerInit();
+  if (h.crashProne()) startPristineServer(h);
   std::map<std::string, uint64_t> counters;
   std::set<std::string> keys;
   int gated = 0, samples = 0;
+  std::vector<uint64_t> hist;      // indexes this worker instance has executed, in order
   auto t0 = a.batchStart == std::chrono::steady_clock::time_point{} ? std::chrono::steady_clock::now() : a.batchStart;
   for (uint64_t i = startIndex; i < a.runs; i++) {
     if ((int)(i % (uint64_t)W) != w) continue;
@@ -374,6 +464,7 @@ inline void workerLoop(Harness &h, const DriverArgs &a, int w, int W, uint64_t s
     g_log.reset(false);
     auto tr0 = std::chrono::steady_clock::now();
     Outcome o = h.execute(plan);
+    hist.push_back(i);
     double runMs = std::chrono::duration<double, std::milli>(std::chrono::steady_clock::now() - tr0).count();
     Json line = Json::object();
     line["i"] = (unsigned long long)i;
@@ -401,8 +492,66 @@ inline void workerLoop(Harness &h, const DriverArgs &a, int w, int W, uint64_t s
         bool iso = h.crashProne();
         g_log.reset(false);
         Outcome o2 = iso ? executeIsolated(h, plan) : h.execute(plan);
-        if (!(o2.violated && o2.vclass == o.vclass && o2.hash == o.hash)) {
+        bool confirmed = o2.violated && o2.vclass == o.vclass && o2.hash == o.hash;
+        if (!confirmed && iso && o2.violated) {
+          // The worker's own execution came after thousands of other plans; what counts is what a
+          // fresh process does, twice the same.
+          g_log.reset(false);
+          Outcome o3 = executeIsolated(h, plan);
+          if (o3.violated && o3.vclass == o2.vclass && o3.hash == o2.hash) {
+            confirmed = true;
+            o = o2;
+            v["class"] = o.vclass; v["detail"] = o.detail; v["sig"] = o.signature;
+            v["worker_state_differed"] = true;
+          }
+        }
+        if (!confirmed && iso && !o2.violated && hist.size() > 1) {
+          // A fresh process does not show it: the worker's earlier plans are part of the cause.  Put the
+          // most recent ones in front of the plan as a prelude and ask a fresh process again.
+          Json withPre = plan;
+          Json pi = Json::array();
+          size_t end = hist.size() - 1;                       // the last entry is this plan itself
+          size_t from = end > 64 ? end - 64 : 0;
+          for (size_t k = from; k < end; k++) pi.push((unsigned long long)hist[k]);
+          withPre["prelude_indexes"] = pi;
+          withPre["batch_seed"] = (unsigned long long)a.seed;
+          Outcome p1 = executeIsolated(h, withPre);
+          Outcome p2 = p1.violated ? executeIsolated(h, withPre) : p1;
+          if (p1.violated && p2.violated && p1.vclass == p2.vclass && p1.hash == p2.hash) {
+            // ddmin over the prelude.
+            std::vector<Json> idx = withPre["prelude_indexes"].a;
+            auto stillFails = [&](const std::vector<Json> &cand) {
+              Json t = withPre; t["prelude_indexes"].a = cand;
+              Outcome q = executeIsolated(h, t);
+              return q.violated && q.vclass == p1.vclass;
+            };
+            size_t nparts = 2; int budget = 120;
+            while (idx.size() >= 1 && budget > 0) {
+              size_t chunk = (idx.size() + nparts - 1) / nparts;
+              bool reduced = false;
+              for (size_t start = 0; start < idx.size() && budget > 0; start += chunk) {
+                std::vector<Json> cand;
+                for (size_t k = 0; k < idx.size(); k++) if (k < start || k >= start + chunk) cand.push_back(idx[k]);
+                budget--;
+                if (stillFails(cand)) { idx = cand; reduced = true; nparts = nparts > 2 ? nparts - 1 : 2; break; }
+              }
+              if (!reduced) { if (chunk <= 1) break; nparts = std::min(nparts * 2, idx.size()); }
+            }
+            withPre["prelude_indexes"].a = idx;
+            g_log.reset(false);
+            Outcome pf = executeIsolated(h, withPre);
+            if (pf.violated && pf.vclass == p1.vclass) {
+              confirmed = true;
+              plan = withPre;
+              o = pf;
+              v["class"] = o.vclass; v["detail"] = o.detail; v["sig"] = o.signature;
+              v["prelude_plans"] = (unsigned long long)idx.size();
+            }
+          }
+        }
+        if (!confirmed) {
           v["nondet"] = true;
+          if (iso && !o2.violated) v["pristine_clean"] = true;     // seen after other plans in this worker, not from a fresh process
           v["second"] = outcomeToJson(o2);
         } else {
           // (2) shrink
@@ -424,6 +573,7 @@ inline void workerLoop(Harness &h, const DriverArgs &a, int w, int W, uint64_t s
           rf["event_log_hash"] = os.hash;
           rf["config"] = small["config"];
           rf["ops"] = small["ops"];
+          if (small.has("prelude_indexes")) { rf["prelude_indexes"] = small.at("prelude_indexes"); rf["batch_seed"] = small.at("batch_seed"); }
           rf["shrunk_from_ops"] = (unsigned long long)st.fromOps;
           rf["shrink_runs"] = st.runs;
           std::string path = a.replayDir + "/" + h.property + "-" + plan["seed"].s + ".json";
@@ -552,6 +702,7 @@ inline int driverMain(int argc, char **argv, Harness &h) {
   std::map<std::string, uint64_t> counters, notes, knownBySig;
   std::vector<Json> samples, violationRecs;
   std::vector<std::string> machineryErrors;
+  std::vector<std::string> workerStateOnly;    // violations a worker saw after many other plans that a fresh process does not show
   std::vector<std::pair<uint64_t, uint64_t>> slowRuns;     // (milliseconds, index) of runs that took more than 2 s
 
   auto handleLine = [&](int w, const std::string &ln) {
@@ -585,7 +736,11 @@ inline int driverMain(int argc, char **argv, Harness &h) {
     if (auto *v = r.find("v")) {
       if (v->getBool("known")) { knownHits++; knownBySig[v->getStr("sig")]++; return; }
       violations++;
-      if (v->getBool("nondet")) { nondet++; machineryErrors.push_back("run " + std::to_string(r.getU64("i")) + ": same plan gave a different result when executed twice: " + v->dump()); }
+      if (v->getBool("nondet")) {
+        nondet++;
+        std::string msg = "run " + std::to_string(r.getU64("i")) + ": same plan gave a different result when executed twice: " + v->dump();
+        if (v->getBool("pristine_clean")) workerStateOnly.push_back(msg); else machineryErrors.push_back(msg);
+      }
       Json rec = *v;
       rec["i"] = r.at("i");
       if (rec.has("replay") || rec.getBool("nondet")) gatedTotal++;
@@ -665,6 +820,12 @@ inline int driverMain(int argc, char **argv, Harness &h) {
     const KnownFindings::Entry *e = kf.match(a.property, kv.first);
     std::printf("KNOWN-FINDING: property=%s sig=%s hits=%llu%s\n", a.property.c_str(), kv.first.c_str(),
                 (unsigned long long)kv.second, e ? (" --" + e->text).c_str() : "");
+  }
+  // A result that depends on what the worker ran before is only a machinery failure when nothing
+  // reproducible came out of the batch; next to a confirmed violation of the same batch it is noted.
+  if (!workerStateOnly.empty()) {
+    if (reported > 0) std::printf("NOTE %zu further violation(s) were seen only after other plans in the same worker process and not from a fresh process (state carried between runs)\n", workerStateOnly.size());
+    else for (auto &m : workerStateOnly) machineryErrors.push_back(m);
   }
   for (auto &m : machineryErrors) std::printf("MACHINERY-ERROR %s\n", m.c_str());
 
